@@ -179,7 +179,7 @@ def _strip_suffix_char(ip, s, ch, limit=3):
         has = ip.branch(T("(str.suffixof %s %s)", 'Bool', smt_str(ch), smt_str(q)))
         if not has: break
         if n >= limit: m_assume(ip, '', [False])
-        r = ip.name_term(T("(str.substr %s 0 (- (str.len %s) 1))", 'String', q.s, q.s), 'trim'); inherit_facts(ip, q, r)
+        r = ip.fresh('String', 'trim', record=False); ip.solver.add("(= %s (str.++ %s %s))" % (q.s, r.s, smt_str(ch))); inherit_facts(ip, q, r)
         n += 1
         if ip.branch(T('(= %s "")', 'Bool', r.s)): parts.pop()
         else: parts[-1] = r
@@ -196,7 +196,7 @@ def _strip_prefix_char(ip, s, ch, limit=3):
         has = ip.branch(T("(str.prefixof %s %s)", 'Bool', smt_str(ch), smt_str(q)))
         if not has: break
         if n >= limit: m_assume(ip, '', [False])
-        r = ip.name_term(T("(str.substr %s 1 (str.len %s))", 'String', q.s, q.s), 'trim'); inherit_facts(ip, q, r)
+        r = ip.fresh('String', 'trim', record=False); ip.solver.add("(= %s (str.++ %s %s))" % (q.s, smt_str(ch), r.s)); inherit_facts(ip, q, r)
         n += 1
         if ip.branch(T('(= %s "")', 'Bool', r.s)): parts.pop(0)
         else: parts[0] = r
@@ -231,18 +231,17 @@ def split_once(ip, s, sep):
             if cannot_contain(ip, q, sep): continue
             if not ip.branch(T("(str.contains %s %s)", 'Bool', q.s, smt_str(sep))): 
                 continue
-            idx = "(str.indexof %s %s 0)" % (q.s, smt_str(sep))
-            head = ip.name_term(T("(str.substr %s 0 %s)", 'String', q.s, idx), 'hd')
-            rest = ip.name_term(T("(str.substr %s (+ %s 1) (str.len %s))", 'String', q.s, idx, q.s), 'rs')
+            head = ip.fresh('String', 'hd', record=False); rest = ip.fresh('String', 'rs', record=False)
+            ip.solver.add("(= %s (str.++ %s %s %s))" % (q.s, head.s, smt_str(sep), rest.s)); ip.solver.add("(not (str.contains %s %s))" % (head.s, smt_str(sep)))
             inherit_facts(ip, q, head); inherit_facts(ip, q, rest); add_fact(ip, head, 'no:' + sep)
             return (sconcat(parts[:k] + [head]), sconcat([rest] + parts[k + 1:]))
         return None
     has = ip.branch(T("(str.contains %s %s)", 'Bool', smt_str(s), smt_str(sep)))
     if not has: return None
-    idx = "(str.indexof %s %s 0)" % (smt_str(s), smt_str(sep))
-    n = len(sep) if isinstance(sep, str) else "(str.len %s)" % sep.s
-    head = T("(str.substr %s 0 %s)", 'String', smt_str(s), idx)
-    rest = T("(str.substr %s (+ %s %s) (str.len %s))", 'String', smt_str(s), idx, n, smt_str(s))
+    head = ip.fresh('String', 'hd', record=False); rest = ip.fresh('String', 'rs', record=False)
+    ip.solver.add("(= %s (str.++ %s %s %s))" % (smt_str(s), head.s, smt_str(sep), rest.s))
+    if isinstance(sep, str) and len(sep) == 1: ip.solver.add("(not (str.contains %s %s))" % (head.s, smt_str(sep)))
+    else: ip.solver.add("(= (str.indexof %s %s 0) (str.len %s))" % (smt_str(s), smt_str(sep), head.s))
     return (head, rest)
 def m_splitn_next(ip, callee, args):
     it = args[0].cell.v
@@ -298,9 +297,12 @@ def parse_int(ip, s, ty):
     if not ip.branch(wf): return res_err(Agg('ParseIntError', None, []))
     neg = lo < 0 and ip.branch(T('(str.prefixof "-" %s)', 'Bool', s.s))
     plus = (not neg) and ip.branch(T('(str.prefixof "+" %s)', 'Bool', s.s))
-    body = "(str.substr %s 1 (str.len %s))" % (s.s, s.s) if (neg or plus) else s.s
+    if neg or plus:
+        b = ip.fresh('String', 'digits', record=False); ip.solver.add('(= %s (str.++ "%s" %s))' % (s.s, '-' if neg else '+', b.s)); body = b.s
+    else: body = s.s
     n = "(str.to_int %s)" % body
     val = T("(- %s)", 'Int', n) if neg else Term(n, 'Int')
+    val = ip.name_term(val, 'pv') if len(val.s) > 40 else val
     inr = T("(and (>= %s %s) (<= %s %s))", 'Bool', val.s, smt_int(lo), val.s, smt_int(hi))
     if not ip.branch(inr): return res_err(Agg('ParseIntError', None, []))
     return res_ok(val)
@@ -666,7 +668,21 @@ def install6(ip):
 def m_vec_sort(ip, c, a):
     lst = vec_of(a[0]) ; items = lst if isinstance(lst, list) else lst.fields[0].v
     vals = [x.v for x in items]
-    if any(is_sym(v) for v in vals): raise Unsupported("sort of symbolic strings")
+    if any(is_sym(v) for v in vals):
+        # insertion sort; lexicographic order by code point (= UTF-8 byte order) decided by the solver
+        out = []
+        for v in vals:
+            i = len(out)
+            while i > 0:
+                a, b = out[i - 1], v
+                if isinstance(a, (str, Term)) and isinstance(b, (str, Term)) and (getattr(a, 'sort', 'String') == 'String') and (getattr(b, 'sort', 'String') == 'String'):
+                    gt = T("(str.< %s %s)", 'Bool', smt_str(b), smt_str(a)) if (is_sym(a) or is_sym(b)) else (b < a)
+                else: gt = ip.binop(None, 'Lt', b, a, None)
+                if ip.branch(gt): i -= 1
+                else: break
+            out.insert(i, v)
+        for cell, v in zip(items, out): cell.v = v
+        return UNIT
     vals.sort()
     for cell, v in zip(items, vals): cell.v = v
     return UNIT
@@ -761,12 +777,25 @@ def m_str_index_rangefrom(ip, c, a):
     start = r.fields[0].v
     if not is_sym(s): return s.encode()[start:].decode()
     return T("(str.substr %s %s (str.len %s))", 'String', s.s, smt_int(start), s.s)
+def m_str_index_range(ip, c, a):
+    s = val_of_strlike(a[0]); r = a[1]
+    if is_sym(s): raise Unsupported("range index of symbolic string")
+    b = s.encode(); n = len(b)
+    if r.ty == 'RangeTo': lo, hi = 0, r.fields[0].v
+    elif r.ty == 'RangeFull': lo, hi = 0, n
+    elif r.ty == 'RangeFrom': lo, hi = r.fields[0].v, n
+    else: lo, hi = r.fields[0].v, r.fields[1].v
+    if is_sym(lo) or is_sym(hi): raise Unsupported("symbolic string range")
+    if lo > hi or hi > n: raise Panic("byte index %d is out of bounds of string" % hi)
+    try: return b[lo:hi].decode()
+    except UnicodeDecodeError: raise Panic("byte index is not a char boundary")
 def m_rsplit_next_last(ip, c, a): raise Unsupported("rsplit")
 def install11(ip):
     ip.pattern_models = [
         (re.compile(r' as AsRef<str>>::as_ref$'), m_as_ref_str),
         (re.compile(r'^String::push_str$'), m_string_push_str),
         (re.compile(r'^<(str|String) as Index<(std::ops::)?RangeFrom<usize>>>::index$'), m_str_index_rangefrom),
+        (re.compile(r'^<(str|String) as Index<(std::ops::)?Range(To|Full)?(<usize>)?>>::index$'), m_str_index_range),
         (re.compile(r'^<u64 as From<u8>>::from$|^<usize as From<.*>>::from$'), lambda ip, c, a: a[0]),
     ] + ip.pattern_models
 
@@ -779,6 +808,7 @@ def items_of(v):
 def as_iter_ref(x): return x if isinstance(x, Ref) else Ref(Cell(x))
 def iter_next2(ip, it):
     t = unref(it)
+    if t.ty == 'SplitN': return m_splitn_next(ip, '', [it])
     if t.ty == 'FilterMap':
         while True:
             r = iter_next2(ip, Ref(t.fields[0]))
@@ -811,7 +841,19 @@ def iter_next2(ip, it):
         return opt_some(Agg('tuple', None, [Cell(a.fields[0].v), Cell(b.fields[0].v)]))
     if t.ty == 'Chars':
         s = t.fields[0].v; i = t.fields[1].v
-        if is_sym(s): raise Unsupported("chars of symbolic string")
+        if is_sym(s):
+            # symbolic string: fix its length on this path (forks), then characters are code points (Int terms)
+            if len(t.fields) < 3:
+                flat = []
+                for q in parts_of(s):
+                    if isinstance(q, str): flat.extend(q)
+                    else:
+                        n = ip.strlen_concrete(q)
+                        flat.extend(T('(str.to_code (str.at %s %d))', 'Int', q.s, k) for k in range(n))
+                t.fields.append(Cell(flat))
+            flat = t.fields[2].v
+            if i >= len(flat): return OPT_NONE()
+            t.fields[1].v = i + 1; return opt_some(flat[i])
         if i >= len(s): return OPT_NONE()
         t.fields[1].v = i + 1; return opt_some(s[i])
     if t.ty == 'RangeIter':
@@ -825,7 +867,7 @@ def iter_next2(ip, it):
 _old_iter_next = iter_next
 def iter_next(ip, it):
     t = unref(it)
-    if getattr(t, 'ty', None) in ('FilterMap', 'Cloned', 'Rev', 'Skip', 'Take', 'Zip', 'Chars', 'RangeIter'): return iter_next2(ip, it)
+    if getattr(t, 'ty', None) in ('SplitN', 'FilterMap', 'Cloned', 'Rev', 'Skip', 'Take', 'Zip', 'Chars', 'RangeIter'): return iter_next2(ip, it)
     return _old_iter_next(ip, it)
 def m_iter_next_any(ip, c, a): return iter_next(ip, a[0])
 def m_iter_filter_map(ip, c, a): return Agg('FilterMap', None, [Cell(a[0]), Cell(a[1])])
@@ -919,6 +961,10 @@ def m_option_ok_or(ip, c, a):
 def m_option_and_then(ip, c, a):
     o = a[0]
     return ip.call_value(a[1], [o.fields[0].v]) if o.variant in ('Some', 'Ok') else o
+def m_option_filter(ip, c, a):
+    o = a[0]
+    if o.variant != 'Some': return o
+    return o if ip.branch(ip.call_value(a[1], [Ref(Cell(o.fields[0].v))])) else OPT_NONE()
 def m_option_cloned(ip, c, a):
     o = a[0]
     return opt_some(clone_value(ip, unref(o.fields[0].v))) if o.variant == 'Some' else o
@@ -990,6 +1036,12 @@ def m_vec_from_elem(ip, c, a): return Agg('Vec', None, [Cell([Cell(deep_copy_val
 def m_slice_to_vec(ip, c, a): return Agg('Vec', None, [Cell([Cell(clone_value(ip, x.v)) for x in items_of(a[0])])])
 def m_vec_from_array(ip, c, a): return Agg('Vec', None, [Cell(list(items_of(a[0])))])
 def m_box_new(ip, c, a): return Agg('Box', None, [Cell(a[0])])
+def m_box_new_uninit(ip, c, a):
+    mu = Agg('MaybeUninit', None, [Cell(UNIT), Cell(Agg('ManuallyDrop', None, [Cell(Agg('MaybeDangling', None, [Cell(None)]))]))])
+    return Agg('BoxUninit', None, [Cell(Agg('Unique', None, [Cell(Ref(Cell(mu)))]))])
+def m_box_assume_init_into_vec(ip, c, a):
+    mu = a[0].fields[0].v.fields[0].v.cell.v
+    return Agg('Vec', None, [Cell(list(mu.fields[1].v.fields[0].v.fields[0].v))])
 def m_chars(ip, c, a): return Agg('Chars', None, [Cell(val_of_strlike(a[0])), Cell(0)])
 def m_str_is_empty(ip, c, a):
     s = val_of_strlike(a[0])
@@ -1048,7 +1100,7 @@ def install12(ip):
         P(r'^<(std::str::)?Chars<.*> as Iterator>::next$', m_iter_next_any),
         P(r'^Result::ok$', m_result_ok), P(r'^Result::err$', m_result_err), P(r'^Result::is_err$', m_result_is_err), P(r'^Result::map_err$', m_result_map_err),
         P(r'^Result::map$', m_result_map), P(r'^(Option|Result)::unwrap_or_else$', m_unwrap_or_else), P(r'^(Option|Result)::unwrap_or_default$', m_unwrap_or_default),
-        P(r'^Option::ok_or$', m_option_ok_or), P(r'^(Option|Result)::and_then$', m_option_and_then), P(r'^Option::cloned$', m_option_cloned),
+        P(r'^Option::ok_or$', m_option_ok_or), P(r'^(Option|Result)::and_then$', m_option_and_then), P(r'^Option::cloned$', m_option_cloned), P(r'^Option::filter$', m_option_filter),
         P(r'^Option::as_mut$', m_option_as_mut), P(r'^Option::take$', m_option_take), P(r'^(Option|Result)::unwrap_unchecked$', m_option_unwrap_unchecked),
         P(r'impl \[.*\]>::sort_by$', m_sort_by), P(r'^<[iu](\d+|size) as Ord>::cmp$|^<(String|str) as Ord>::cmp$', m_ord_cmp),
         P(r'^Vec::retain$', m_vec_retain), P(r'^Vec::dedup$', m_vec_dedup), P(r'^Vec::clear$', m_vec_clear), P(r'^Vec::truncate$', m_vec_truncate),
@@ -1056,7 +1108,7 @@ def install12(ip):
         P(r'^<(Vec<.*>|\[.*\]) as Index(Mut)?<(std::ops::)?Range(From|To|Full)?(<usize>)?>>::index(_mut)?$', m_slice_index_range),
         P(r'impl \[.*\]>::first$', m_slice_first), P(r'impl \[.*\]>::get$', m_slice_get),
         P(r'^std::vec::from_elem$|^from_elem$', m_vec_from_elem), P(r'impl \[.*\]>::to_vec$', m_slice_to_vec), P(r'impl \[.*\]>::into_vec$|^<Vec<.*> as From<\[.*\]>>::from$', m_vec_from_array),
-        P(r'^Box::new$|^Box::<.*>::new$', m_box_new), P(r'impl str>::chars$', m_chars), P(r'impl str>::is_empty$|^String::is_empty$', m_str_is_empty),
+        P(r'^Box::new$|^Box::<.*>::new$', m_box_new), P(r'^Box::new_uninit$', m_box_new_uninit), P(r'box_assume_init_into_vec_unsafe$', m_box_assume_init_into_vec), P(r'impl str>::chars$', m_chars), P(r'impl str>::is_empty$|^String::is_empty$', m_str_is_empty),
         P(r'^String::from_utf8$', m_string_from_utf8), P(r'impl str>::as_bytes$|^String::as_bytes$', m_as_bytes), P(r'^String::into_bytes$', m_into_bytes),
     ] + ip.pattern_models
 
